@@ -101,6 +101,21 @@ end HS.Layout
 namespace HS
 open HS.Layout
 
+theorem exact_quiet_poll (e : ExactLen) (h0 : e.remaining = 0) (hq : QuietScript e.stream) :
+    e.poll.2 = .end_ ∨ e.poll.2 = .pending ∨ e.poll.2 = .data [] := by
+  cases hf : e.finished
+  case true => rw [ExactLen.poll_finished e hf]; simp
+  unfold ExactLen.poll
+  simp only [hf, Bool.false_eq_true, if_false]
+  split
+  · simp [h0]
+  · simp
+  · rename_i rest hs
+    have := hq .err (by simp [hs]); simp at this
+  · rename_i bs rest hs
+    have := hq (.chunk bs) (by simp [hs])
+    simp at this; subst this; simp
+
 /-- C12: when a single-stream body says end-of-stream and the entity honours its contract (the
 stream has nothing but empty chunks / Pending left), no data and no error follow. -/
 theorem exact_eos_truthful (e : ExactLen) (h0 : e.remaining = 0) (hq : QuietScript e.stream) (n : Nat) :
@@ -108,29 +123,16 @@ theorem exact_eos_truthful (e : ExactLen) (h0 : e.remaining = 0) (hq : QuietScri
   induction n generalizing e with
   | zero => simp [outs_run_zero]
   | succ n ih =>
-    obtain ⟨s, r⟩ := e
-    simp only at h0 hq; subst h0
     rw [outs_run_succ, exact_poll]
-    cases s with
-    | nil =>
-      intro o ho
-      simp only [ExactLen.poll, List.mem_cons] at ho
-      rcases ho with rfl | ho
-      · simp
-      · exact ih ⟨[], 0⟩ rfl (by simp [QuietScript]) o (by simpa using ho)
-    | cons ev rest =>
-      have hq' : QuietScript rest := fun x hx => hq x (List.mem_cons_of_mem _ hx)
-      rcases hq ev (List.mem_cons_self) with rfl | rfl
-      · intro o ho
-        simp only [ExactLen.poll, List.mem_cons] at ho
-        rcases ho with rfl | ho
-        · simp
-        · exact ih _ rfl hq' o ho
-      · intro o ho
-        simp only [ExactLen.poll, List.mem_cons] at ho
-        rcases ho with rfl | ho
-        · simp
-        · exact ih _ rfl hq' o (by simpa using ho)
+    intro o ho
+    simp only [List.mem_cons] at ho
+    rcases ho with rfl | ho
+    · exact exact_quiet_poll e h0 hq
+    · refine ih e.poll.1 ?_ ?_ o ho
+      · have := ExactLen.poll_remaining_le e; omega
+      · rcases ExactLen.poll_stream e with hp | hp
+        · rw [hp]; intro ev hev; exact hq ev (List.mem_of_mem_tail hev)
+        · rw [hp]; exact hq
 
 /-- C12: when a multipart body says end-of-stream, every further poll reports the end —
 unconditionally. -/
@@ -160,8 +162,8 @@ theorem hint_aux (k : Nat) (b : BodyS) (hinv : BInv b)
     | data d => have := st.data d ho; simp [PollOut.dataLen]; omega
     | pending => have := st.pend ho; simp [PollOut.dataLen]; omega
     | end_ =>
-      have := (st.end_ ho).1
-      simp [PollOut.dataLen]; rw [this] at h1 ⊢; omega
+      have := st.end_ ho
+      simp [PollOut.dataLen]; omega
     | errEntity | errShort _ | errLong _ => rw [ho] at h0; simp [PollOut.isErr] at h0
     | panic => exact absurd ho st.noPanic.1
     | diverge => exact absurd ho st.noPanic.2
@@ -203,13 +205,24 @@ theorem concatData_replicate_end (n : Nat) : concatData (List.replicate n .end_)
   | zero => simp [concatData]
   | succ n ih => simp [List.replicate_succ, concatData, ih]
 
-theorem exact_done_run (n : Nat) :
-    outs (BodyS.run n (.exact { stream := [], remaining := 0 })) = List.replicate n .end_ := by
-  induction n with
+theorem exact_done_run' (e : ExactLen) (h0 : e.remaining = 0) (hs : e.stream = []) (n : Nat) :
+    outs (BodyS.run n (.exact e)) = List.replicate n .end_ := by
+  induction n generalizing e with
   | zero => simp [outs_run_zero]
   | succ n ih =>
     rw [outs_run_succ, exact_poll]
-    simp [ExactLen.poll, ih, List.replicate_succ]
+    have h2 : e.poll.2 = .end_ := by
+      cases hf : e.finished
+      · simp [ExactLen.poll, hf, hs, h0]
+      · rw [ExactLen.poll_finished e hf]
+    have h1 : e.poll.1.remaining = 0 := by have := ExactLen.poll_remaining_le e; omega
+    have h3 : e.poll.1.stream = [] := by
+      rcases ExactLen.poll_stream e with hp | hp <;> simp [hp, hs]
+    simp [h2, ih e.poll.1 h1 h3, List.replicate_succ]
+
+theorem exact_done_run (n : Nat) :
+    outs (BodyS.run n (.exact { stream := [], remaining := 0 })) = List.replicate n .end_ :=
+  exact_done_run' _ rfl rfl n
 
 theorem exact_honest_run (script : List Ev) (rem : Nat) (hne : Ev.err ∉ script)
     (hlen : (scriptBytes script).length = rem) (n : Nat) (hn : script.length + 1 ≤ n) :
@@ -233,7 +246,7 @@ theorem exact_honest_run (script : List Ev) (rem : Nat) (hne : Ev.err ∉ script
     | pending =>
       simp only [scriptBytes] at hlen ⊢
       obtain ⟨h1, h2, h3⟩ := ih rem hne' hlen n hn'
-      simp only [ExactLen.poll]
+      simp only [ExactLen.poll, Bool.false_eq_true, if_false]
       refine ⟨by simpa [concatData] using h1, List.mem_cons_of_mem _ h2, ?_⟩
       intro o ho
       rcases List.mem_cons.mp ho with rfl | ho
@@ -243,7 +256,7 @@ theorem exact_honest_run (script : List Ev) (rem : Nat) (hne : Ev.err ∉ script
       simp only [scriptBytes, List.length_append] at hlen ⊢
       have hle : bs.length ≤ rem := by omega
       obtain ⟨h1, h2, h3⟩ := ih (rem - bs.length) hne' (by omega) n hn'
-      simp only [ExactLen.poll, hle, if_true]
+      simp only [ExactLen.poll, hle, if_true, Bool.false_eq_true, if_false]
       refine ⟨by simp [concatData, h1], List.mem_cons_of_mem _ h2, ?_⟩
       intro o ho
       rcases List.mem_cons.mp ho with rfl | ho
@@ -270,45 +283,43 @@ theorem exact_body_is_slice (c : Content) (a b : Nat) (hab : a ≤ b) (script : 
 /-- C07: if a body over one stream ends cleanly, the stream did not fail and delivered exactly
 the announced number of bytes. (Contrapositive: a short, long or failing stream never yields a
 clean end.) -/
-theorem exact_clean_end_honest (e : ExactLen) (n : Nat)
+theorem exact_clean_end_honest (e : ExactLen) (hf : e.finished = false) (n : Nat)
     (hne : ∀ o ∈ outs (BodyS.run n (.exact e)), o.isErr = false)
     (hend : PollOut.end_ ∈ outs (BodyS.run n (.exact e))) :
     Ev.err ∉ e.stream ∧ (scriptBytes e.stream).length = e.remaining := by
   induction n generalizing e with
   | zero => simp [outs_run_zero] at hend
   | succ n ih =>
-    obtain ⟨s, rem⟩ := e
     rw [outs_run_succ, exact_poll] at hne hend
     have h0 := hne _ List.mem_cons_self
     have hne' := fun o ho => hne o (List.mem_cons_of_mem _ ho)
-    cases s with
-    | nil =>
-      by_cases hr : rem = 0
-      · simp [scriptBytes, hr]
-      · simp [ExactLen.poll, hr, PollOut.isErr] at h0
-    | cons ev rest =>
-      cases ev with
-      | err => simp [ExactLen.poll, PollOut.isErr] at h0
-      | pending =>
-        simp only [ExactLen.poll] at hne' hend
-        have hend' : PollOut.end_ ∈ outs (BodyS.run n (.exact { stream := rest, remaining := rem })) := by
-          rcases List.mem_cons.mp hend with h | h
-          · cases h
-          · exact h
-        obtain ⟨h1, h2⟩ := ih _ hne' hend'
-        simp only at h1 h2
-        exact ⟨by simp [h1], by simpa [scriptBytes] using h2⟩
-      | chunk bs =>
-        by_cases hle : bs.length ≤ rem
-        · simp only [ExactLen.poll, hle, if_true] at hne' hend
-          have hend' : PollOut.end_ ∈ outs (BodyS.run n (.exact { stream := rest, remaining := rem - bs.length })) := by
-            rcases List.mem_cons.mp hend with h | h
-            · cases h
-            · exact h
-          obtain ⟨h1, h2⟩ := ih _ hne' hend'
-          simp only at h1 h2
-          exact ⟨by simp [h1], by simp [scriptBytes]; omega⟩
-        · simp [ExactLen.poll, hle, PollOut.isErr] at h0
+    cases ho : e.poll.2 with
+    | end_ =>
+      obtain ⟨hz, _, _, hs⟩ := ExactLen.poll_end (ExactLen.ok_of_not_finished hf) ho
+      simp [hs hf, hz, scriptBytes]
+    | data d =>
+      obtain ⟨hle, hrem, ⟨rest, hs, hs'⟩, _, hf'⟩ := ExactLen.poll_data ho
+      have hend' : PollOut.end_ ∈ outs (BodyS.run n (.exact e.poll.1)) := by
+        rcases List.mem_cons.mp hend with h | h
+        · rw [ho] at h; cases h
+        · exact h
+      obtain ⟨h1, h2⟩ := ih _ hf' hne' hend'
+      rw [hs'] at h1 h2
+      rw [hs]
+      exact ⟨by simp [h1], by simp [scriptBytes]; omega⟩
+    | pending =>
+      obtain ⟨hrem, ⟨rest, hs, hs'⟩, _, hf'⟩ := ExactLen.poll_pending ho
+      have hend' : PollOut.end_ ∈ outs (BodyS.run n (.exact e.poll.1)) := by
+        rcases List.mem_cons.mp hend with h | h
+        · rw [ho] at h; cases h
+        · exact h
+      obtain ⟨h1, h2⟩ := ih _ hf' hne' hend'
+      rw [hs'] at h1 h2
+      rw [hs]
+      exact ⟨by simp [h1], by simp [scriptBytes]; omega⟩
+    | errEntity | errShort _ | errLong _ => rw [ho] at h0; simp [PollOut.isErr] at h0
+    | panic => exact absurd ho (ExactLen.poll_not_panic e).1
+    | diverge => exact absurd ho (ExactLen.poll_not_panic e).2
 
 end HS
 
@@ -438,13 +449,13 @@ namespace HS.Layout
 theorem body_pending (m : Multipart) (rest : List Ev) (rem k : Nat)
     (hc : m.cur = some { stream := .pending :: rest, remaining := rem }) :
     Multipart.pollF (k + 1) m = ({ m with cur := some { stream := rest, remaining := rem } }, .pending) := by
-  simp only [Multipart.pollF, hc, ExactLen.poll]
+  simp only [Multipart.pollF, hc, ExactLen.poll, Bool.false_eq_true, if_false]
 
 theorem body_err (m : Multipart) (rest : List Ev) (rem k : Nat)
     (hc : m.cur = some { stream := .err :: rest, remaining := rem }) :
     Multipart.pollF (k + 1) m =
       ({ m with cur := none, remaining := 0, state := 2 * m.ranges.length + 1 }, .errEntity) := by
-  simp only [Multipart.pollF, hc, ExactLen.poll]
+  simp only [Multipart.pollF, hc, ExactLen.poll, Bool.false_eq_true, if_false]
 
 theorem body_short (m : Multipart) (rem k : Nat) (hr : rem ≠ 0)
     (hc : m.cur = some { stream := [], remaining := rem }) :
